@@ -170,7 +170,7 @@ class EHistCheck(Check):
             viol.append({"sig": {"kind": kind, "template": str(tpl), "op": opname, "opdetail": repr(op)},
                          "what": f"after {[repr(o) for o in hist[:-1]]}: {op!r}: {what}", "detail": detail})
 
-        if res.exit != 0 and "Did not compile" in res.err:
+        if driver.compile_rejected(res):
             return {"outcome": "rejected", "nontrivial": False, "tags": ["rejected", f"rej-{opname}"], "show": res.out[-300:]}
         if failed:
             if res.exit == 0:
